@@ -87,3 +87,27 @@ def TG():
     except Exception as e:
         return f"EXC {type(e).__name__}: {e}"
 print("TaskPrecedence(optional group, task): expected accepted, got", quiet(TG))
+import processscheduler as ps, io, contextlib
+def quiet(f):
+    with contextlib.redirect_stdout(io.StringIO()):
+        return f()
+def ND():
+    pb = ps.SchedulingProblem(name="nd", horizon=10)
+    w = ps.Worker(name="w")
+    try:
+        ps.ResourceNonDelay(resource=w)
+        return "accepted"
+    except Exception as e:
+        return f"rejected: {type(e).__name__}"
+print("ResourceNonDelay on an unassigned worker: expected rejected, got", quiet(ND))
+def UT():
+    pb = ps.SchedulingProblem(name="ut", horizon=10)
+    w = ps.Worker(name="w")
+    t = ps.FixedDurationTask(name="t", duration=2); t.add_required_resource(w)
+    a = ps.IndicatorResourceUtilization(resource=w)
+    try:
+        b = ps.IndicatorResourceUtilization(resource=w)
+        return ("second accepted", a.name, b.name, len(pb.indicators))
+    except Exception as e:
+        return f"rejected: {type(e).__name__}"
+print("two IndicatorResourceUtilization(w): expected second rejected, got", quiet(UT))
